@@ -260,6 +260,21 @@ def oracle(w, leaves, trees, built, opts_list, viol):
             if acc != tr:
                 viol.append(dict(desc="transform differs from folding the iterated steps",
                                  leaves=leaves, tree=t, options=o, got=tr, fold=acc))
+            # the same options dictionary OBJECT, updated in place between two transform() calls on the same
+            # pipeline object (a parameter sweep): parameters are read from the options at each call
+            if len(opts_list) > 1:
+                shared = {}
+                for o2 in (o, opts_list[(opts_list.index(o) + 1) % len(opts_list)], o):
+                    shared.clear()
+                    shared.update(py_opts(o2))
+                    checks += 1
+                    a = attempt(lambda: p.transform([], shared))
+                    b = attempt(lambda: w.as_pipeline(w.build(t)).transform([], dict(shared)))
+                    if a != b:
+                        viol.append(dict(desc="transform() on a pipeline called again with the same options dictionary object, updated in place, "
+                                              "does not read its parameters from the updated options", leaves=leaves, tree=t, options=o2,
+                                         got=a, fresh=b))
+                        break
             # the evaluated pipeline is an ordinary function: every call applies all steps, also when it
             # is called again or mapped over several elements by a higher-order helper
             if tr is not None:
@@ -411,6 +426,13 @@ def helper_enumeration(viol):
                 got = step.transform(x, o)
                 if hasattr(got, "__next__"):
                     got = list(got)  # lazily evaluated helpers (itertools.chain ...)
+                # the evaluated step is an ordinary function: applying it again gives the same result
+                fn = step.evaluate(o)
+                again = [fn(x), fn(x)]
+                again = [list(g) if hasattr(g, "__next__") else g for g in again]
+                if not (again[0] == got and again[1] == got):
+                    viol.append(dict(desc=f"helper {name} ({form} argument): the evaluated step gives different results when applied again",
+                                     helper=name, form=form, input=repr(x), arg=repr(a), first=repr(got), again=repr(again)))
                 keys = step.keys(o)
                 expl = step.explain({})
                 if isinstance(got, float) and isinstance(want, float):
